@@ -912,6 +912,17 @@ static sexp sexp_restore_stack (sexp ctx, sexp saved) {
   return SEXP_VOID;
 }
 
+#if SEXP_USE_VERIF_HOOKS
+/* verification hooks (C06): expose the stack copy helpers of call/cc so that */
+/* an embedding harness can run them on chosen stacks */
+sexp sexp_verif_save_stack (sexp ctx, sexp_uint_t to) {
+  return sexp_save_stack(ctx, sexp_stack_data(sexp_context_stack(ctx)), to);
+}
+sexp sexp_verif_restore_stack (sexp ctx, sexp saved) {
+  return sexp_restore_stack(ctx, saved);
+}
+#endif
+
 #define _ARG1 stack[top-1]
 #define _ARG2 stack[top-2]
 #define _ARG3 stack[top-3]
